@@ -42,13 +42,10 @@ func (c *Client) keepaliveLoop(ctx context.Context) error {
 		select {
 		case <-ticker.C:
 			// A tick can be already waiting when the client leaves the
-			// active state.
-			if c.state.Get() != util.StateActive {
-				continue
-			}
+			// active state: ping(true) does nothing in that case.
 			// Must not use c.Ping() here: it waits for all client's
 			// goroutines (including this one) if the client is cancelled.
-			if _, err := c.ping(); err != nil {
+			if _, err := c.ping(true); err != nil {
 				return err
 			}
 
